@@ -5,6 +5,17 @@ assignments, hoisted loop invariants, helper functions written back in place, ke
 shifted integer bound).  VIOLATED: a recognised wrong form (wrong dimension under a bound, failure test that is not the
 negated scan bound, process count of another communicator, extents replaced one without the other, a memoised table
 changed in place, an iteration that changes nothing).  Anything else is UNDECIDED.
+
+Round 4 (relational forms):
+ - N1-call-site also compares the two READS of the grid sizes: the attribute handed to the search and the reads the grids of
+   the layouts are computed from (backward slice of getLayoutHandler's eta_grids) must see the same object state: a store into
+   the constants object between them is VIOLATED with both reads quoted.
+ - N1-bounds: a bound written `min(npts[o[k]] for o in T)` is followed through T (module constant table -> compared with the
+   standard layouts; `layouts.values()` of a parameter -> holds relationally for position k, and the call sites must hand the
+   dictionary they give to getLayoutHandler).
+ - N2 on a search written over a TABLE of candidates (`_Coll`: integers lo..hi, filtered by divisibility / admissibility, list
+   comprehension or masked arange, slices `X[i+1:]`, `range(r1 + 1, ...)`): `for ... else: raise`, `if <table empty>: raise`,
+   and `if quotient > bound: raise` on one pre-selected element (wrong unless that element is the largest candidate).
 """
 from __future__ import annotations
 
@@ -148,6 +159,9 @@ def _normal_form(tree, names):
             _inline_invariants(st)
             ast.fix_missing_locations(st)
             out[st.name] = st
+    for n in ast.walk(t2):
+        for ch in ast.iter_child_nodes(n):
+            ch._parent = n
     return t2, out
 
 
@@ -378,7 +392,7 @@ def _path_facts(loop, target):
     chain = _chain_to(loop.body, target)
     if chain is None:
         return None, order, pos
-    out = [(-1, loop.test, True)]
+    out = [(-1, loop.test, True)] if isinstance(loop, ast.While) else []
     for lvl, (blk, k) in enumerate(chain):
         for sib in blk[:k]:
             if isinstance(sib, ast.If):
@@ -438,7 +452,92 @@ def _dims_under(e, npts):
     return None
 
 
-def bounds_vs_layouts(chk, nf):
+def _int_rows(e):
+    """literal table ((0, 3, 1, 2), ...) / dict literal with such values -> list of tuples of int, else None"""
+    if isinstance(e, ast.Dict):
+        vals = e.values
+    elif isinstance(e, (ast.Tuple, ast.List)):
+        vals = e.elts
+    else:
+        return None
+    rows = []
+    for v in vals:
+        if not (isinstance(v, (ast.Tuple, ast.List)) and v.elts and all(_int_const(x) for x in v.elts)):
+            return None
+        rows.append(tuple(x.value for x in v.elts))
+    return rows or None
+
+
+def _module_const(tree, name):
+    vals = [st.value for st in tree.body if isinstance(st, ast.Assign) and any(isinstance(t, ast.Name) and t.id == name for t in st.targets)]
+    vals += [st.value for st in tree.body if isinstance(st, ast.AnnAssign) and isinstance(st.target, ast.Name) and st.target.id == name and st.value]
+    stored = sum(1 for n in ast.walk(tree) if isinstance(n, ast.Name) and n.id == name and isinstance(n.ctx, (ast.Store, ast.Del)))
+    return vals[0] if len(vals) == 1 and stored == 1 else None
+
+
+def _table_alts(fn, tree, e, as_dict=False, depth=0):
+    """the tables of dimension orderings an expression can stand for:
+    [('const', rows, text) | ('param', parameter name, text)], or None when some alternative is not followed.
+    as_dict: the expression is a dictionary whose VALUES are the orderings"""
+    if depth > 6:
+        return None
+    params = _params(fn) + [a.arg for a in fn.args.kwonlyargs]
+    if isinstance(e, ast.IfExp):
+        a, b = _table_alts(fn, tree, e.body, as_dict, depth + 1), _table_alts(fn, tree, e.orelse, as_dict, depth + 1)
+        return None if a is None or b is None else a + b
+    if isinstance(e, ast.Name):
+        vals, augs = _defs(fn, e.id)
+        if augs or any(v is None for v in vals):
+            return None
+        out = []
+        if e.id in params:
+            if not as_dict:
+                return None
+            out.append(("param", e.id, e.id))
+        elif not vals:
+            c = _module_const(tree, e.id)
+            rows = _int_rows(c) if c is not None and (isinstance(c, ast.Dict) == as_dict) else None
+            return [("const", rows, e.id)] if rows else None
+        for v in vals:
+            if isinstance(v, ast.Constant) and v.value is None:
+                continue
+            sub = _table_alts(fn, tree, v, as_dict, depth + 1)
+            if sub is None:
+                return None
+            out += sub
+        return out or None
+    if isinstance(e, ast.Call) and isinstance(e.func, ast.Name) and e.func.id in ("tuple", "list", "sorted") and len(e.args) == 1 and not e.keywords:
+        return _table_alts(fn, tree, e.args[0], as_dict, depth + 1)
+    if isinstance(e, ast.Call) and isinstance(e.func, ast.Attribute) and e.func.attr == "values" and not e.args and not e.keywords and not as_dict:
+        return _table_alts(fn, tree, e.func.value, True, depth + 1)
+    rows = _int_rows(e) if isinstance(e, ast.Dict) == as_dict else None
+    return [("const", rows, src(e)[:60])] if rows else None
+
+
+def _gen_bound(fn, tree, e, npts):
+    """`min(npts[o[k]] for o in T)` (or a list comprehension, or `min(npts[d] for d in (0, 3))`)
+    -> (k or None, alternatives of T) ; None when the expression has another form"""
+    if not (isinstance(e, ast.Call) and src(e.func).split(".")[-1] == "min" and len(e.args) == 1 and not e.keywords
+            and isinstance(e.args[0], (ast.GeneratorExp, ast.ListComp))):
+        return None
+    g = e.args[0]
+    if len(g.generators) != 1 or g.generators[0].ifs or not isinstance(g.generators[0].target, ast.Name):
+        return None
+    t, it, elt = g.generators[0].target.id, g.generators[0].iter, g.elt
+    if not (isinstance(elt, ast.Subscript) and isinstance(elt.value, ast.Name) and elt.value.id == npts):
+        return None
+    idx = elt.slice
+    if isinstance(idx, ast.Name) and idx.id == t:
+        if isinstance(it, (ast.Tuple, ast.List)) and it.elts and all(_int_const(x) for x in it.elts):
+            return None, [("const", [(x.value,) for x in it.elts], src(it))]
+        return None
+    if isinstance(idx, ast.Subscript) and isinstance(idx.value, ast.Name) and idx.value.id == t and _int_const(idx.slice) and idx.slice.value >= 0:
+        alts = _table_alts(fn, tree, it)
+        return (idx.slice.value, alts) if alts else None
+    return None
+
+
+def bounds_vs_layouts(chk, nf, tree=None):
     chk.func(U.PROCGRID, GRID)
     fn = nf[GRID]
     kw = dict(file=U.PROCGRID, func=GRID)
@@ -467,11 +566,46 @@ def bounds_vs_layouts(chk, nf):
         chk.ob("N1-bounds-cover-layouts", fn, f"return {FROM_MAX}(bound1, bound2, mpi_size)", None, "call not found", **kw)
         return
     npts, count = gparams[0], gparams[1]
+    layout_params = set()
     for k in (0, 1):
         e = b[fparams[k]]
         dims = {o[k] for o in std}
+        if isinstance(e, ast.Name):
+            e2, adj = _resolve(fn, e)
+            if e2 is not None and not adj:
+                e = e2
         got = _dims_under(e, npts) if npts not in _written(fn) else None
         construct = f"{fparams[k]} = min(npts[d] for d distributed along process direction {k})"
+        gen = _gen_bound(fn, tree, e, npts) if got is None and tree is not None and npts not in _written(fn) else None
+        if gen is not None:
+            # the minimum runs over a table of dimension orderings: one obligation per table the code can use
+            pos, alts = gen
+            for kind, what, text in alts:
+                if kind == "param":
+                    layout_params.add(what)
+                    c2 = f"{fparams[k]} = min({npts}[o[{k}]] for the orderings o of the layouts handed in `{what}`)"
+                    if pos == k:
+                        chk.ob("N1-bounds-cover-layouts", e, c2, True,
+                               f"the bound of process direction {k} is the smallest extent among the dimensions at position {k} of every layout "
+                               f"the caller hands in: exactly the dimensions those layouts distribute along direction {k}", **kw)
+                    else:
+                        chk.ob("N1-bounds-cover-layouts", e, c2, False,
+                               f"the bound of process direction {k} is the minimum over position {pos} of the orderings in `{what}` (`{src(e)[:80]}`), but "
+                               f"a layout distributes the dimension at position {k} along process direction {k}: the extents of the dimensions "
+                               "really distributed along that direction are not checked, a process can be left without points", **kw)
+                    continue
+                have = {r[pos or 0] for r in what if len(r) > (pos or 0)}
+                if any(len(r) <= (pos or 0) for r in what):
+                    chk.ob("N1-bounds-cover-layouts", e, construct, None, f"an ordering of `{text}` has no position {pos}", **kw)
+                    continue
+                ok = have == dims
+                via = f"position {pos} of the orderings in `{text}`" if pos is not None else f"`{text}`"
+                chk.ob("N1-bounds-cover-layouts", e, construct + (f" [table {text}]" if len(alts) > 1 else ""), ok,
+                       f"the bound of process direction {k} is the smallest extent among the dimensions {sorted(dims)} ({via}) that the standard "
+                       f"layouts distribute along it" if ok else f"{fparams[k]} is the minimum over dimensions {sorted(have)} ({via}) but the "
+                       f"standard layouts distribute dimensions {sorted(dims)} along process direction {k}: a process can be left without "
+                       "points of an unchecked dimension (or a valid grid refused)", **kw)
+            continue
         if got is None:
             chk.ob("N1-bounds-cover-layouts", e, construct, None,
                    f"the bound `{src(e)[:80]}` is not a minimum over entries `{npts}[d]` with literal d: the dimensions it covers "
@@ -499,6 +633,7 @@ def bounds_vs_layouts(chk, nf):
                "the number of processes of the communicator the caller lays it on")
     chk.pat("N1-bounds-cover-layouts", rets[0], f"return {FROM_MAX}(bound1, bound2, mpi_size)", okr,
             "the two bounds and the unchanged process count are handed to the search, each to its own parameter", bad, **kw)
+    return layout_params
 
 
 # ---------------------------------------------------------------------------------------------------------
@@ -579,7 +714,162 @@ def _same_comm(f, hc, cm):
     return False
 
 
-def _site(chk, f, c, label, gparams, hparams, via_helper=False):
+# ---------------------------------------------------------------------------------------------------------
+# N1: the grid sizes handed to the search are the ones the layouts' grids are built from
+# ---------------------------------------------------------------------------------------------------------
+_READ_ONLY_CALLS = {"getattr", "hasattr", "dir", "isinstance", "callable", "type", "id", "print", "repr", "str", "len", "vars"}
+
+
+def _stmt_of(node):
+    p = node
+    while p is not None and not isinstance(p, ast.stmt):
+        p = parent(p)
+    return p
+
+
+def _order(f, x, y):
+    """position of statement x relative to statement y in f: 'before' / 'after' / 'excl' (branches of one `if`) /
+    'same' (one contains the other) / 'loop' (both inside one loop: either order occurs) / None (not found)"""
+    cx, cy = _chain_to(f.body, x), _chain_to(f.body, y)
+    if cx is None or cy is None:
+        return None
+    in_loop = False
+    for lvl in range(min(len(cx), len(cy))):
+        (bx, ix), (by, iy) = cx[lvl], cy[lvl]
+        if bx is not by:
+            holder = cx[lvl - 1][0][cx[lvl - 1][1]]
+            if isinstance(holder, ast.If):
+                return "excl"
+            if isinstance(holder, (ast.For, ast.While)):
+                return "loop" if in_loop else ("before" if bx is holder.body else "after")
+            return None
+        if ix != iy:
+            return "loop" if in_loop else ("before" if ix < iy else "after")
+        if isinstance(bx[ix], (ast.For, ast.While)):
+            in_loop = True
+    return "same"
+
+
+def _changes_of(f, R):
+    """statements of f that can change the object the local name R stands for:
+    [(statement, description, attribute name or None for any, value expression or None, kind)]"""
+    out = []
+    for n in ast.walk(f):
+        if isinstance(n, (ast.Assign, ast.AugAssign, ast.AnnAssign)):
+            tgs = n.targets if isinstance(n, ast.Assign) else [n.target]
+            for t in tgs:
+                for x in ast.walk(t):
+                    if isinstance(x, ast.Name) and x.id == R and isinstance(x.ctx, ast.Store):
+                        out.append((n, f"`{src(n)[:70]}` binds `{R}` to another object", None, None, "rebind"))
+                    elif isinstance(x, ast.Attribute) and isinstance(x.ctx, ast.Store) and isinstance(x.value, ast.Name) and x.value.id == R:
+                        out.append((n, f"`{src(n)[:70]}` stores `{R}.{x.attr}`", x.attr, getattr(n, "value", None), "store"))
+        elif isinstance(n, (ast.For, ast.With)):
+            tg = [n.target] if isinstance(n, ast.For) else [it.optional_vars for it in n.items if it.optional_vars is not None]
+            if any(isinstance(x, ast.Name) and x.id == R for t in tg for x in ast.walk(t)):
+                out.append((n, f"`{src(n).splitlines()[0][:70]}` binds `{R}` to another object", None, None, "rebind"))
+        elif isinstance(n, ast.Call):
+            st = _stmt_of(n)
+            fname = src(n.func)
+            bare = [a for a in list(n.args) + [k.value for k in n.keywords] if isinstance(a, ast.Name) and a.id == R]
+            if fname in ("setattr", "object.__setattr__") and len(n.args) == 3 and bare and n.args[0] in bare:
+                a = n.args[1]
+                attr = a.value if isinstance(a, ast.Constant) and isinstance(a.value, str) else None
+                out.append((st, f"`{src(n)[:70]}` stores " + (f"`{R}.{attr}`" if attr else f"attributes of `{R}` by computed name"),
+                            attr, n.args[2], "store"))
+            elif fname == "delattr" and bare:
+                out.append((st, f"`{src(n)[:70]}`", None, None, "call"))
+            elif isinstance(n.func, ast.Attribute) and _root_name(n.func.value) == R and \
+                    (n.func.attr in lints.MUTATING_METHODS or n.func.attr.startswith("__set")):
+                out.append((st, f"`{src(n)[:70]}` changes `{R}` in place", None, None, "call"))
+            elif bare and not (isinstance(n.func, ast.Name) and n.func.id in _READ_ONLY_CALLS):
+                out.append((st, f"`{src(n)[:70]}` receives `{R}` and may change it", None, None, "call"))
+    return [c for c in out if c[0] is not None]
+
+
+def _slice_reads(f, exprs, R):
+    """Load nodes of the name R in the backward slice (through plain local assignments) of the expressions"""
+    seen, work, reads = set(), list(exprs), []
+    while work:
+        e = work.pop()
+        for n in ast.walk(e):
+            if isinstance(n, ast.Name) and isinstance(n.ctx, ast.Load):
+                if n.id == R:
+                    reads.append(n)
+                elif n.id not in seen:
+                    seen.add(n.id)
+                    vals, _ = _defs(f, n.id)
+                    work += [v for v in vals if v is not None]
+    return reads
+
+
+def _same_resolution(chk, f, c, label, sizes, eta_exprs, kw):
+    """the attribute `R.A` read for the process grid has the value the grids of the layouts are computed from: no store
+    into R between the two reads"""
+    construct = f"{label}: the grid sizes read for {GRID} are the ones the layouts' grids are built from"
+    rule = "N1-call-site"
+    if not (isinstance(sizes, ast.Attribute) and isinstance(sizes.value, ast.Name)):
+        return
+    R, A = sizes.value.id, sizes.attr
+    g_st = _stmt_of(sizes)
+    reads = []
+    for n in _slice_reads(f, eta_exprs, R):
+        p = parent(n)
+        if isinstance(p, ast.Attribute) and p.value is n:
+            if p.attr == A:
+                reads.append(p)
+        else:
+            reads.append(n)
+    shared = [r for r in reads if r is sizes or _stmt_of(r) is g_st]
+    reads = [r for r in reads if _stmt_of(r) is not None and _stmt_of(r) is not g_st]
+    if g_st is not None and shared and not reads:
+        chk.ob(rule, c, construct, True,
+               f"the grids handed to getLayoutHandler are computed from the same read of `{R}.{A}` (line {g_st.lineno}) as the process grid", **kw)
+        return
+    if g_st is None or not reads:
+        chk.ob(rule, c, construct, None,
+               f"no read of `{R}.{A}` found among the statements that compute the grids handed to getLayoutHandler: the two uses of the "
+               "grid sizes cannot be compared", **kw)
+        return
+    hard, soft = [], []
+    for st, desc, attr, val, kind in _changes_of(f, R):
+        if attr is not None and attr != A:
+            continue
+        for r in reads:
+            r_st = _stmt_of(r)
+            o1, o2 = _order(f, g_st, st), _order(f, st, r_st)
+            if o1 in ("excl", None) or o2 in ("excl", None):
+                continue
+            between = (o1 == "before" and o2 == "before") or (o1 == "after" and o2 == "after")
+            unsure = "loop" in (o1, o2) or "same" in (o1, o2)
+            if not (between or unsure):
+                continue
+            first, second = (f"{GRID} (line {c.lineno})", f"`{src(r_st).splitlines()[0][:60]}` (line {r_st.lineno})") if o1 == "before" \
+                else (f"`{src(r_st).splitlines()[0][:60]}` (line {r_st.lineno})", f"{GRID} (line {c.lineno})")
+            keeps = val is not None and any(isinstance(x, ast.Attribute) and x.attr == A and isinstance(x.value, ast.Name) and x.value.id == R
+                                            for x in ast.walk(val))
+            if between and kind == "store" and not keeps:
+                hard.append((st, desc, first, second))
+            else:
+                soft.append((st, desc))
+            break
+    if hard:
+        st, desc, first, second = hard[0]
+        chk.ob(rule, st, construct, False,
+               f"{desc} (line {st.lineno}) between the two reads of `{R}.{A}`: {first} reads the value from before the store, {second} the "
+               f"value after it. With `{A}` given by the caller the process grid is chosen for another resolution than the one the layouts "
+               "are built with: a process can be left without points of a distributed dimension, or no error is raised although no grid fits", **kw)
+        return
+    if soft:
+        st, desc = soft[0]
+        chk.ob(rule, st, construct, None,
+               f"{desc} (line {st.lineno}) possibly between the read of `{R}.{A}` for {GRID} and the read the layouts' grids are built from: "
+               "cannot decide that both see the same value", **kw)
+        return
+    chk.ob(rule, c, construct, True,
+           f"`{R}` is not changed between the read of `{R}.{A}` for {GRID} and the {len(reads)} read(s) the grids of the layouts are computed from", **kw)
+
+
+def _site(chk, f, c, label, gparams, hparams, via_helper=False, layout_params=()):
     kw = dict(file=U.SETUPS, func=getattr(f, "_qual", f.name))
     construct = f"{label}: {GRID}(constants.npts, <layout communicator>.Get_size()) -> getLayoutHandler"
     good = "the grid sizes and the size of the communicator the layouts are built on; the result is the handler's process grid"
@@ -600,7 +890,8 @@ def _site(chk, f, c, label, gparams, hparams, via_helper=False):
         gparams = list(b)
     if len(gparams) < 2 or gparams[0] not in b or gparams[1] not in b:
         return undecided("the grid sizes and the process count are not both passed")
-    extra = [f"{p}={src(b[p])}" for p in b if p not in gparams[:2]]
+    extra = [f"{p}={src(b[p])}" for p in b if p not in gparams[:2] and p not in layout_params]
+    own_layouts = [b[p] for p in b if p not in gparams[:2] and p in layout_params]
     handlers = [h for h in ast.walk(f) if isinstance(h, ast.Call) and isinstance(h.func, ast.Name) and h.func.id == "getLayoutHandler"]
     hb = [_bind(h, hparams) for h in handlers]
     if not handlers or any(x is None or "comm" not in x or "nprocs" not in x for x in hb):
@@ -627,6 +918,32 @@ def _site(chk, f, c, label, gparams, hparams, via_helper=False):
                          "the same communicator")
     if adjusted:
         return undecided(f"the size of `{cm}` is adjusted ({adjusted}) before it is used as process count")
+    for a in own_layouts:
+        # the search takes its bounds from the layouts it is given: they must be the ones the handler is built with
+        hl = {src(x[hparams[1]]) for x in hb if len(hparams) > 1 and hparams[1] in x}
+        vals, augs = _defs(f, a.id) if isinstance(a, ast.Name) else ([], [])
+        ra, _adj = _resolve(f, a)
+        rh = [_resolve(f, x[hparams[1]])[0] for x in hb if len(hparams) > 1 and hparams[1] in x]
+        rows_a, rows_h = _int_rows(ra) if isinstance(ra, ast.Dict) else None, [_int_rows(x) if isinstance(x, ast.Dict) else None for x in rh]
+        if hl != {src(a)} and rows_a and rh and all(rows_h) and all(len(r) >= 2 for rr in [rows_a] + rows_h for r in rr):
+            da = [{r[k] for r in rows_a} for k in (0, 1)]
+            dh = [{r[k] for rr in rows_h for r in rr} for k in (0, 1)]
+            if da != dh:
+                chk.ob("N1-call-site", c, construct, False,
+                       f"{GRID} takes its bounds from the layouts `{src(ra)[:80]}` (dimensions {sorted(da[0])} / {sorted(da[1])} along the two process "
+                       f"directions) but getLayoutHandler is built with `{src(rh[0])[:80]}` (dimensions {sorted(dh[0])} / {sorted(dh[1])}): the extents "
+                       "of the dimensions really distributed are not the ones the grid was checked against", **kw)
+                return
+            continue
+        if hl != {src(a)} or (isinstance(a, ast.Name) and (len(vals) > 1 or augs or None in vals)):
+            return undecided(f"the layouts handed to {GRID} (`{src(a)[:60]}`) are not recognised as the dictionary handed to "
+                             f"getLayoutHandler ({sorted(hl)}), assigned once")
+        muts = [(st, d) for st, d, _a, _v, kind in _changes_of(f, a.id) if kind != "rebind"
+                and not (isinstance(st, ast.Assign) and any(x is c for x in ast.walk(st)))
+                and not any(isinstance(x, ast.Call) and isinstance(x.func, ast.Name) and x.func.id == "getLayoutHandler" for x in ast.walk(st))] \
+            if isinstance(a, ast.Name) else []
+        if muts:
+            return undecided(f"{muts[0][1]} (line {muts[0][0].lineno}): cannot decide that {GRID} and getLayoutHandler see the same layouts")
     grid_sizes, gadj = _resolve(f, b[gparams[0]])
     is_param = via_helper and isinstance(grid_sizes, ast.Name) and grid_sizes.id in _params(f) and not gadj
     if not is_param and (grid_sizes is None or gadj or src(grid_sizes) != "constants.npts"):
@@ -635,9 +952,12 @@ def _site(chk, f, c, label, gparams, hparams, via_helper=False):
     if not (isinstance(tgt, ast.Assign) and len(tgt.targets) == 1 and src(tgt.targets[0]) == hn):
         return undecided(f"the result of {GRID} is not the value `{hn}` handed to getLayoutHandler as process grid")
     chk.ob("N1-call-site", c, construct, True, good, **kw)
+    if not is_param:
+        eta = [x[p] for x in hb for p in hparams[3:4] if p in x]
+        _same_resolution(chk, f, c, label, grid_sizes, eta, kw)
 
 
-def call_sites(chk):
+def call_sites(chk, layout_params=()):
     smod = chk.mod(U.SETUPS)
     pmod = chk.mod(U.PROCGRID)
     gparams = _params(pmod.func(GRID)) if pmod.has(GRID) else []
@@ -657,7 +977,7 @@ def call_sites(chk):
         calls = grid_calls(f)
         if calls:
             for c in calls:
-                _site(chk, f, c, q, gparams, hparams)
+                _site(chk, f, c, q, gparams, hparams, layout_params=layout_params)
             continue
         called = {c.func.id for c in ast.walk(f) if isinstance(c, ast.Call) and isinstance(c.func, ast.Name)}
         helpers = [g for g in funcs if g is not f and g.name in called and grid_calls(g)]
@@ -669,7 +989,7 @@ def call_sites(chk):
             chk.func(U.SETUPS, g.name)
             for c in grid_calls(g):
                 # inside a helper the grid sizes arrive as a parameter: only the communicator and the use of the result are decided
-                _site(chk, g, c, q, gparams, hparams, via_helper=True)
+                _site(chk, g, c, q, gparams, hparams, via_helper=True, layout_params=layout_params)
 
 
 # ---------------------------------------------------------------------------------------------------------
@@ -832,11 +1152,11 @@ def _first_loop(fn, P1, P2, M, r1, r2):
     return out
 
 
-def _second_loop(fn, w1, P1, P2, M, r1, r2):
+def _second_loop(fn, w1, P1, P2, M, r1, r2, ctx=None, env=None):
     """the refinement loop -> dict: w2, step=(verdict, why), cand=(a, b) names of the accepted candidate, mono: bool"""
     out = {"w2": None, "step": (None, "the refinement loop (the top-level `while` after the first search that stores the returned "
                                 "extents) was not found"), "cand": None, "mono": False}
-    tops = [n for n in fn.body if isinstance(n, ast.While) and n is not w1
+    tops = [n for n in fn.body if isinstance(n, (ast.While, ast.For) if ctx is not None else ast.While) and n is not w1
             and any(isinstance(x, ast.Name) and isinstance(x.ctx, ast.Store) and x.id in (r1, r2) for x in ast.walk(n))]
     if w1 is not None:
         tops = [n for n in tops if fn.body.index(n) > fn.body.index(w1)]
@@ -850,6 +1170,13 @@ def _second_loop(fn, w1, P1, P2, M, r1, r2):
         st2 = [s for s in blk if isinstance(s, ast.Assign) and len(s.targets) == 1 and isinstance(s.targets[0], ast.Name) and s.targets[0].id == r2]
         if st1 or st2:
             acc.append((blk, st1, st2))
+    table = None
+    if isinstance(w2, ast.For):
+        lt = _loop_target(w2, env or {}, M)
+        if lt is None:
+            out["step"] = (None, f"the sequence `{src(w2.iter)[:80]}` the refinement loop runs over is not a recognised table of divisors")
+            return out
+        table = lt
     other = [n for n in ast.walk(w2) if isinstance(n, (ast.AugAssign, ast.For)) and _own_stores(n) & {r1, r2}]
     if other or not acc:
         out["step"] = (None, f"the returned extents are changed by `{src(other[0])[:60]}`" if other else "no assignment of the returned extents")
@@ -909,6 +1236,31 @@ def _second_loop(fn, w1, P1, P2, M, r1, r2):
                 got1 = f if got1 is None or f[3] < got1[3] else got1
             if b and f[0] == b and f[2] == P2:
                 got2 = f if got2 is None or f[3] < got2[3] else got2
+    if table is not None:
+        _i, cv, D2 = table
+        if cv != a or _stored_between(order, -1, here, {a}):
+            out["step"] = (None, f"the accepted first extent `{a}` is not the candidate `{cv}` of the loop over `{D2.text[:60]}`")
+            return out
+        if not D2.div and any(((_is_div(t2, a, M) and tk) or (_is_nondiv(t2, a, M) and not tk)) and not _stored_between(order, p, here, {a})
+                              for p, t, taken in facts for t2, tk in _facts(t, taken)):
+            D2 = D2.but(div=True)
+        if not D2.div:
+            out["step"] = (None, f"the table `{D2.text[:80]}` is not filtered by `{M} % n == 0`: not known that `{a}` divides `{M}`")
+            return out
+        if D2.hi[0] == want1 and (got1 is None or D2.hi[1] < got1[3]):
+            got1 = (a, "le", want1, D2.hi[1])
+        # candidates after the position where the first search stopped have larger first extents, hence quotients not above the one that
+        # was found admissible there
+        if got2 is None and b and ctx.get("adm") and ctx.get("idx") and D2.asc and D2.after is not None and D2.after[0] == ctx["idx"] \
+                and D2.after[1] >= 1 and D2.root is ctx["D"]:
+            got2 = (b, "le", P2, 0)
+            out["by_order"] = True
+        # the same argument for `range(nprocs1 + c, ...)`: evaluated once, with the pair the first search stopped at
+        between = fn.body[fn.body.index(w1) + 1:fn.body.index(w2)] if w1 is not None and w1 in fn.body else None
+        if got2 is None and b and ctx.get("adm") and D2.start is not None and D2.start[0] == r1 and D2.start[1] >= 1 and between is not None \
+                and not any(_own_stores(x) & {r1, r2} for st in between for x in _preorder([st])):
+            got2 = (b, "le", P2, 0)
+            out["by_order"] = True
     for g, nm, bound in ((got1, a, f"min({M}, {P1})"), (got2, b, P2)):
         if g is not None and g[3] > 0:
             out["step"] = (False, f"a candidate is accepted when `{nm} <= {_bound_text(g[2], g[3])}`, beyond its bound `{bound}`: "
@@ -927,6 +1279,454 @@ def _second_loop(fn, w1, P1, P2, M, r1, r2):
         al, _ = _aliases_after(sblk, k, sc["var"])
         if a in al and _scan_start(sblk, k, sc["var"]) == (r1, 1):
             out["mono"] = True
+    return out
+
+
+# ---------------------------------------------------------------------------------------------------------
+# candidate tables: the divisors of the process count as one sequence (list comprehension, filtered arange)
+# ---------------------------------------------------------------------------------------------------------
+class _Coll:
+    """a sequence of candidate extents: the integers lo..hi (hi = base + k, inclusive) that pass the filters.
+    div: every element divides M (or is 1); complete: no filter other than divisibility; asc: increasing order;
+    after: (index variable, c) for the part `X[i + c:]` of the table `root`"""
+
+    def __init__(self, lo, hi, text, div=False, complete=True, asc=True, after=None, root=None, start=None, adm=None):
+        self.lo, self.hi, self.text, self.div, self.complete, self.asc, self.after, self.root = lo, hi, text, div, complete, asc, after, root
+        self.start = start      # (name, c): the integers from `name + c` on (lo is None then)
+        self.adm = adm          # (base, k): filtered by `M // n <= base + k`
+
+    def but(self, **kw):
+        c = copy.copy(self)
+        for k, v in kw.items():
+            setattr(c, k, v)
+        return c
+
+
+def _is_div(c, v, M):
+    return same_expr(c, f"{M} % {v} == 0") or same_expr(c, f"0 == {M} % {v}") or same_expr(c, f"not {M} % {v}") \
+        or same_expr(c, f"{M} % {v} < 1") or same_expr(c, f"not ({M} % {v})")
+
+
+def _adm_filter(c, v, M):
+    """`M // v <= B + k` (any spelling of the comparison) -> (canonical B, k), else None"""
+    if not (isinstance(c, ast.Compare) and len(c.ops) == 1):
+        return None
+    q = ast.Name(id="_q_", ctx=ast.Load())
+    l, r = c.left, c.comparators[0]
+    if same_expr(l, f"{M} // {v}"):
+        f = _cmp(ast.Compare(left=q, ops=c.ops, comparators=[r]), {"_q_"})
+    elif same_expr(r, f"{M} // {v}"):
+        f = _cmp(ast.Compare(left=l, ops=c.ops, comparators=[q]), {"_q_"})
+    else:
+        return None
+    return (f[2], f[3]) if f and f[1] == "le" else None
+
+
+def _coll_of(e, env, M):
+    if isinstance(e, ast.Name):
+        return env.get(e.id)
+    if isinstance(e, ast.Call) and not e.keywords:
+        fname = src(e.func)
+        if fname in ("range", "np.arange", "numpy.arange", "arange") and len(e.args) == 2 and _int_const(e.args[0]):
+            base, c = _lin(e.args[1])
+            return _Coll(e.args[0].value, (base, c - 1), src(e))
+        if fname in ("range", "np.arange", "numpy.arange", "arange") and len(e.args) == 2:
+            a0 = e.args[0]
+            if isinstance(a0, ast.BinOp) and isinstance(a0.op, ast.Add):
+                for x, y in ((a0.left, a0.right), (a0.right, a0.left)):
+                    if isinstance(x, ast.Name) and _int_const(y):
+                        base, c = _lin(e.args[1])
+                        return _Coll(None, (base, c - 1), src(e), start=(x.id, y.value))
+            return None
+        if fname in ("list", "tuple", "sorted", "np.array", "np.asarray", "np.sort", "numpy.array", "numpy.asarray", "numpy.sort") and len(e.args) == 1:
+            return _coll_of(e.args[0], env, M)
+        return None
+    if isinstance(e, (ast.ListComp, ast.GeneratorExp)) and len(e.generators) == 1 and isinstance(e.generators[0].target, ast.Name) \
+            and isinstance(e.elt, ast.Name) and e.elt.id == e.generators[0].target.id and not e.generators[0].is_async:
+        base = _coll_of(e.generators[0].iter, env, M)
+        if base is None:
+            return None
+        v = e.elt.id
+        for c in e.generators[0].ifs:
+            af = _adm_filter(c, v, M)
+            base = base.but(div=True) if _is_div(c, v, M) else base.but(adm=af) if af and base.adm is None else base.but(complete=False)
+        return base.but(text=src(e))
+    if isinstance(e, ast.BinOp) and isinstance(e.op, ast.Add) and isinstance(e.left, ast.List) and len(e.left.elts) == 1 \
+            and _int_const(e.left.elts[0]) and e.left.elts[0].value == 1:
+        r = _coll_of(e.right, env, M)
+        if r is not None and r.lo == 2 and r.after is None:
+            return r.but(lo=1, text=src(e))
+        return None
+    if isinstance(e, ast.Subscript):
+        base = _coll_of(e.value, env, M)
+        if base is None:
+            return None
+        sl = e.slice
+        if isinstance(sl, ast.Compare) and isinstance(e.value, ast.Name) and _is_div(sl, e.value.id, M):
+            return base.but(div=True, text=base.text + f" [{src(sl)}]")
+        if isinstance(sl, ast.Compare) and isinstance(e.value, ast.Name) and base.adm is None and _adm_filter(sl, e.value.id, M):
+            return base.but(adm=_adm_filter(sl, e.value.id, M), text=base.text + f" [{src(sl)}]")
+        if isinstance(sl, ast.Slice) and sl.upper is None and sl.step is None and sl.lower is not None and base.after is None:
+            lw = sl.lower
+            if _int_const(lw) and lw.value >= 0:
+                return base.but(complete=base.complete and lw.value == 0, text=src(e), root=base, after=(None, lw.value))
+            if isinstance(lw, ast.BinOp) and isinstance(lw.op, ast.Add):
+                for a, b in ((lw.left, lw.right), (lw.right, lw.left)):
+                    if isinstance(a, ast.Name) and _int_const(b) and b.value >= 0:
+                        return base.but(complete=False, text=src(e), root=base, after=(a.id, b.value))
+        return None
+    return None
+
+
+def _coll_env(fn, M):
+    """{name: _Coll} for the candidate tables built by the top-level statements of fn; a name stored anywhere else, or changed
+    in place, is left out"""
+    env, bad = {}, set()
+    top = {id(st) for st in fn.body}
+    for n in ast.walk(fn):
+        if isinstance(n, ast.Call) and isinstance(n.func, ast.Attribute) and n.func.attr in lints.MUTATING_METHODS:
+            r = _root_name(n.func.value)
+            if r:
+                bad.add(r)
+        elif isinstance(n, (ast.Subscript, ast.Attribute)) and isinstance(n.ctx, (ast.Store, ast.Del)):
+            r = _root_name(n)
+            if r:
+                bad.add(r)
+        elif isinstance(n, ast.Name) and isinstance(n.ctx, (ast.Store, ast.Del)):
+            st = _stmt_of(n)
+            if not (isinstance(st, ast.Assign) and id(st) in top and len(st.targets) == 1 and st.targets[0] is n):
+                bad.add(n.id)
+    for st in fn.body:
+        if isinstance(st, ast.Assign) and len(st.targets) == 1 and isinstance(st.targets[0], ast.Name):
+            nm = st.targets[0].id
+            c = _coll_of(st.value, env, M) if nm not in bad else None
+            if c is not None:
+                env[nm] = c
+            else:
+                env.pop(nm, None)
+    return env
+
+
+def _elements(fn, e, env, M, seen=None, depth=0):
+    """the positions of candidate tables an integer expression can come from: [(table, index text)], None when not followed"""
+    seen = set() if seen is None else seen
+    if depth > 8:
+        return None
+    if isinstance(e, ast.Call) and not e.keywords and len(e.args) == 1 and src(e.func) in ("int", "max", "min", "np.max", "np.min", "np.amax", "np.amin"):
+        fname = src(e.func).split(".")[-1]
+        if fname == "int":
+            return _elements(fn, e.args[0], env, M, seen, depth + 1)
+        c = _coll_of(e.args[0], env, M)
+        if c is not None and c.asc:
+            return [(c, "-1" if "max" in fname else "0")]
+        return None
+    if isinstance(e, ast.Call) and isinstance(e.func, ast.Attribute) and e.func.attr in ("item", "max", "min") and not e.args and not e.keywords:
+        if e.func.attr == "item":
+            return _elements(fn, e.func.value, env, M, seen, depth + 1)
+        c = _coll_of(e.func.value, env, M)
+        return [(c, "-1" if e.func.attr == "max" else "0")] if c is not None and c.asc else None
+    if isinstance(e, ast.IfExp):
+        a, b = _elements(fn, e.body, env, M, seen, depth + 1), _elements(fn, e.orelse, env, M, seen, depth + 1)
+        return None if a is None or b is None else a + b
+    if isinstance(e, ast.Subscript) and not isinstance(e.slice, (ast.Slice, ast.Compare, ast.Tuple)):
+        c = _coll_of(e.value, env, M)
+        return [(c, _canon(e.slice))] if c is not None else None
+    if isinstance(e, ast.Name):
+        if e.id in seen:
+            return []
+        seen.add(e.id)
+        vals, augs = _defs(fn, e.id)
+        if augs or not vals or any(v is None for v in vals):
+            return None
+        out = []
+        for v in vals:
+            sub = _elements(fn, v, env, M, seen, depth + 1)
+            if sub is None:
+                return None
+            out += sub
+        return out
+    return None
+
+
+def _neighbour_choices(fn, env, M):
+    """places where the code chooses between two positions `i + c1` / `i + c2` of one table:
+    [(deciding test, table, smaller position text, larger position text)]"""
+    def one(e):
+        el = _elements(fn, e, env, M)
+        if not el or len({(id(c), i) for c, i in el}) != 1:
+            return None
+        c, i = el[0]
+        try:
+            base, k = _lin(ast.parse(i, mode="eval").body)
+        except SyntaxError:
+            return None
+        return c, base, k, i
+    out = []
+    for n in ast.walk(fn):
+        pair = None
+        if isinstance(n, ast.IfExp):
+            pair = (n.body, n.orelse)
+        elif isinstance(n, ast.If) and len(n.body) == 1 and len(n.orelse) == 1 and all(
+                isinstance(x, ast.Assign) and len(x.targets) == 1 and isinstance(x.targets[0], ast.Name) for x in (n.body[0], n.orelse[0])) \
+                and n.body[0].targets[0].id == n.orelse[0].targets[0].id:
+            pair = (n.body[0].value, n.orelse[0].value)
+        if pair is None:
+            continue
+        a, b = one(pair[0]), one(pair[1])
+        if a and b and a[0] is b[0] and a[1] == b[1] and a[2] != b[2] and not _int_const(ast.parse(a[1], mode="eval").body):
+            lo_, hi_ = (a, b) if a[2] < b[2] else (b, a)
+            out.append((n.test, a[0], lo_[3], hi_[3]))
+    return out
+
+
+def _is_last(c, idx):
+    return c.asc and (idx == "-1" or idx.replace(" ", "") in (f"len({c.text})-1",))
+
+
+def _loop_target(lp, env, M):
+    """for c in X / for i, c in enumerate(X) -> (index variable or None, candidate variable, table) ; None"""
+    it, tg = lp.iter, lp.target
+    if isinstance(it, ast.Call) and isinstance(it.func, ast.Name) and it.func.id == "enumerate" and len(it.args) == 1 and not it.keywords \
+            and isinstance(tg, ast.Tuple) and len(tg.elts) == 2 and all(isinstance(x, ast.Name) for x in tg.elts):
+        c = _coll_of(it.args[0], env, M)
+        return (tg.elts[0].id, tg.elts[1].id, c) if c is not None else None
+    if isinstance(tg, ast.Name):
+        c = _coll_of(it, env, M)
+        return (None, tg.id, c) if c is not None else None
+    return None
+
+
+def _table_search(fn, P1, P2, M, r1, r2):
+    """the search written over a table of candidate divisors (no stepping `while`): the same four verdicts as for the loops"""
+    und = "the search is neither the stepping `while` loops nor a recognised walk over a table of divisors"
+    out = {"w1": None, "scan": None, "guard": (None, und), "fact": (None, und), "step": (None, und), "w2": None, "cand": None,
+           "mono": False, "node": fn}
+    env = out["env"] = _coll_env(fn, M)
+    T = f"min({M}, {P1})"
+    want1 = _canon(ast.parse(T, mode="eval").body)
+    raises = [n for n in ast.walk(fn) if isinstance(n, ast.Raise)]
+    if len(raises) != 1:
+        out["guard"] = (None, f"{len(raises)} `raise` statements / {len(env)} candidate tables recognised in {fn.name}: " + und)
+        return out
+    rs = raises[0]
+    tabs = ", ".join(f"`{k} = {v.text[:70]}`" for k, v in env.items())
+
+    def table_verdict(D):
+        """None when D is the complete increasing table of the divisors of M in 1..min(M, P1); else (verdict, why)"""
+        if not (D.hi[0] == want1 and D.lo is not None) or D.after is not None:
+            return None, f"the table `{D.text[:80]}` is not the candidates from 1 to `{T}`: cannot decide which candidates are tried"
+        if D.hi[1] < 0:
+            return False, (f"the table of candidates `{D.text[:80]}` stops at `{_bound_text(T, D.hi[1])}`: a divisor equal to the bound `{T}` is "
+                           "admissible but never tried, a valid grid can be refused")
+        if D.hi[1] > 0:
+            return False, (f"the table of candidates `{D.text[:80]}` runs up to `{_bound_text(T, D.hi[1])}`, beyond the bound `{T}`: a first "
+                           "extent larger than the number of points is accepted (a process gets no point of a distributed dimension)")
+        if D.lo > 1:
+            return False, (f"the table of candidates `{D.text[:80]}` starts at {D.lo}: the first extent 1 is never tried, so the error is raised "
+                           f"when no larger divisor fits although the grid (1, {M}) is valid whenever `{M} <= {P2}`")
+        if not D.div:
+            return None, f"the table `{D.text[:80]}` is not filtered by `{M} % n == 0`: not known that every candidate divides `{M}`"
+        if not (D.complete and D.asc):
+            return None, f"the table `{D.text[:80]}` is filtered by a condition that is not followed"
+        return True, ""
+
+    par = parent(rs)
+    # ---------------- form A: for ... else: raise
+    if isinstance(par, ast.For) and par in fn.body and par.orelse and par.orelse[0] is rs:
+        L1 = out["w1"] = out["node"] = par
+        lt = _loop_target(L1, env, M)
+        if lt is None or lt[2].after is not None or lt[2].adm is not None or lt[2].lo is None:
+            out["guard"] = out["fact"] = (None, f"the sequence `{src(L1.iter)[:80]}` the first search runs over is not a recognised table of divisors")
+            return out
+        idx, c, D = lt
+        brs = [n for n in _preorder(L1.body) if isinstance(n, ast.Break)]
+        inner = [n for n in _preorder(L1.body) if isinstance(n, (ast.For, ast.While))]
+        order = _preorder(L1.body)
+        pos = {id(s_): p_ for p_, s_ in enumerate(order)}
+
+        def last_def(name, before):
+            ds = [s_ for s_ in order[:before] if name in _own_stores(s_)]
+            return ds[-1] if ds else None
+        if len(brs) != 1 or inner:
+            out["guard"] = out["fact"] = (None, f"{len(brs)} `break` statements / {len(inner)} nested loops in the first search loop (one break expected)")
+            return out
+        br = brs[0]
+        facts, _o, _p = _path_facts(L1, br)
+        here = pos[id(br)]
+        # quotient variables: q = M // c
+        quot = {}
+        for s_ in order[:here]:
+            if isinstance(s_, ast.Assign) and len(s_.targets) == 1 and isinstance(s_.targets[0], ast.Name) and isinstance(s_.value, ast.BinOp) \
+                    and isinstance(s_.value.left, ast.Name) and s_.value.left.id == M and isinstance(s_.value.right, ast.Name):
+                quot[s_.targets[0].id] = (s_, s_.value.right.id, s_.value.op)
+        calias = {c}
+        for s_ in order[:here]:
+            if isinstance(s_, ast.Assign) and len(s_.targets) == 1 and isinstance(s_.targets[0], ast.Name) and isinstance(s_.value, ast.Name) \
+                    and s_.value.id in calias:
+                calias.add(s_.targets[0].id)
+        adm = None
+        for p_, t_, taken in facts or []:
+            for t2, tk in _facts(t_, taken):
+                f = _cmp(t2, set(quot), tk)
+                if f and f[1] == "le" and f[2] == P2 and quot[f[0]][1] in calias and isinstance(quot[f[0]][2], ast.FloorDiv) \
+                        and not _stored_between(order, p_, here, {f[0]}) and not _stored_between(order, pos[id(quot[f[0]][0])], here, {f[0], quot[f[0]][1]}):
+                    adm = f if adm is None or f[3] < adm[3] else adm
+        if not D.div and any((_is_div(t2, x, M) and tk) or (_is_nondiv(t2, x, M) and not tk)
+                             for _p, t_, taken in facts or [] for t2, tk in _facts(t_, taken) for x in calias):
+            D = D.but(div=True, text=D.text + f" [with `{M} % {c} == 0` tested in the loop]")
+        nofilter = not D.div and D.complete and not any(isinstance(n, ast.Mod) for n in ast.walk(L1))
+        tv, twhy = table_verdict(D)
+        if adm is None:
+            out["guard"] = (None, f"no condition `{M} // {c} <= {P2}` is known to hold at the `break` of the first search loop: cannot decide "
+                                  "that the loop stops at an admissible candidate and reaches the `raise` only when there is none")
+        elif adm[3] != 0:
+            out["guard"] = (False, f"the first search stops when `{adm[0]} <= {_bound_text(P2, adm[3])}` instead of `{adm[0]} <= {P2}`: " +
+                            ("a second extent beyond its bound is accepted (a process gets no point)" if adm[3] > 0 else
+                             "a second extent equal to its bound is admissible but refused (the error can be raised although a valid grid exists)"))
+        elif tv is not True:
+            out["guard"] = (tv, twhy)
+        else:
+            out["guard"] = (True, f"the loop visits every divisor of `{M}` from 1 to {T} in increasing order ({tabs}) and stops at the first whose "
+                                  f"quotient fits `{P2}`; the `else` branch raises exactly when it ran through all of them without stopping")
+        # factorisation: the pair on leaving the loop
+        why = None
+        verdict = None
+        d1 = last_def(r1, here) if r1 != c else None
+        if r1 != c and not (isinstance(d1, ast.Assign) and isinstance(d1.value, ast.Name) and d1.value.id in calias):
+            why = f"the returned first extent `{r1}` is not the candidate `{c}` of the loop at the `break`"
+        if why is None:
+            if r2 not in quot or quot[r2][1] not in calias | {r1} or last_def(r2, here) is not quot[r2][0]:
+                why = f"the returned second extent `{r2}` is not assigned `{M} // {c}` before the `break`"
+            elif isinstance(quot[r2][2], ast.Div):
+                verdict, why = False, (f"`{src(quot[r2][0])}` is a true division: the second extent becomes a float, which is no valid number of "
+                                       "processes for the cartesian topology")
+            elif not isinstance(quot[r2][2], ast.FloorDiv):
+                why = f"`{src(quot[r2][0])}` is not the quotient `{M} // {c}`"
+        if why is None and nofilter:
+            verdict, why = False, (f"the candidates `{D.text[:80]}` are all the integers up to the bound, and neither the table nor the loop tests "
+                                   f"`{M} % {c} == 0`: the first candidate whose rounded-down quotient fits is taken even when it does not divide "
+                                   f"`{M}`, and the grid does not multiply to the process count")
+        elif why is None and not D.div:
+            why = f"the table `{D.text[:80]}` is not filtered by `{M} % n == 0`: not known that `{c}` divides `{M}`"
+        later = [n for st in fn.body[fn.body.index(L1) + 1:] for n in ast.walk(st) if isinstance(n, ast.Name) and isinstance(n.ctx, ast.Store)
+                 and n.id in ({idx} if idx else set())]
+        out["fact"] = (True, f"the second extent is the exact quotient `{M} // {c}` by an element of the table of divisors: the grid multiplies "
+                             "to the process count") if why is None else (verdict, why)
+        out["ctx"] = {"D": D, "idx": idx if not later else None, "adm": adm is not None and adm[3] <= 0 and adm[0] == r2 and r1 == c}
+        return out
+    # ---------------- form C: the admissible candidates are filtered into a table; `if <table is empty>: raise`
+    V = None
+    if isinstance(par, ast.If) and par in fn.body and par.body and par.body[0] is rs and not par.orelse:
+        t = par.test
+        for nm, tb in env.items():
+            if any(same_expr(t, x) for x in (f"len({nm}) == 0", f"not len({nm})", f"len({nm}) < 1", f"{nm}.size == 0", f"not {nm}.size",
+                                             f"0 == len({nm})", f"not {nm}") if not (x == f"not {nm}" and "arange" in tb.text)):
+                V = tb
+    if V is not None:
+        out["node"] = par
+        qdefs = [st for st in fn.body if r2 in _own_stores(st)]
+        allq = [n for n in ast.walk(fn) if isinstance(n, ast.Name) and isinstance(n.ctx, ast.Store) and n.id == r2]
+        q = qdefs[0] if len(qdefs) == 1 and len(allq) == 1 and fn.body.index(qdefs[0]) > fn.body.index(par) else None
+        e = q.value if isinstance(q, ast.Assign) else None
+        srcs = _elements(fn, ast.Name(id=r1, ctx=ast.Load()), env, M) if q is not None else None
+        stores1 = [n for n in ast.walk(fn) if isinstance(n, ast.Name) and isinstance(n.ctx, ast.Store) and n.id == r1 and _stmt_of(n) is not None
+                   and q is not None and _order(fn, q, _stmt_of(n)) != "after"]
+        plain = V.but(adm=None)
+        tv, twhy = table_verdict(plain)
+        if V.adm is None or V.adm[0] != P2:
+            out["guard"] = (None, f"the table `{V.text[:80]}` whose emptiness raises the error is not filtered by `{M} // n <= {P2}`")
+        elif V.adm[1] != 0:
+            out["guard"] = (False, f"the admissible candidates are those with `{M} // n <= {_bound_text(P2, V.adm[1])}` instead of `<= {P2}`: " +
+                            ("a second extent beyond its bound is accepted (a process gets no point)" if V.adm[1] > 0 else
+                             "a second extent equal to its bound is refused (the error can be raised although a valid grid exists)"))
+        elif tv is not True:
+            out["guard"] = (tv, twhy)
+        else:
+            out["guard"] = (True, f"`{V.text[:120]}` holds every divisor of `{M}` from 1 to {T} whose quotient fits `{P2}`; the error is raised exactly "
+                                  "when it is empty")
+        if not (isinstance(e, ast.BinOp) and isinstance(e.left, ast.Name) and e.left.id == M and isinstance(e.right, ast.Name) and e.right.id == r1) \
+                or not srcs or stores1 or any(c_ is not V for c_, _i in srcs):
+            out["fact"] = out["step"] = (None, f"the returned pair is not recognised as `{r1}` = an element of `{V.text[:60]}`, `{r2} = {M} // {r1}` "
+                                               "assigned once after the emptiness test")
+        elif isinstance(e.op, ast.Div):
+            out["fact"] = out["step"] = (False, f"`{src(q)}` is a true division: the second extent becomes a float, which is no valid number of processes")
+        elif not isinstance(e.op, ast.FloorDiv) or not V.div:
+            out["fact"] = out["step"] = (None, f"`{src(q)}` / the table `{V.text[:60]}`: not known that `{r1}` divides `{M}` and `{r2}` is the quotient")
+        else:
+            out["fact"] = (True, f"the second extent is the exact quotient `{M} // {r1}` by an element of the table of divisors ({tabs}): the grid "
+                                 "multiplies to the process count")
+            okstep = out["guard"][0] is True
+            out["step"] = (True if okstep else None,
+                           f"whatever element of `{V.text[:60]}` is chosen, it lies within {T} and its quotient within `{P2}`: the table holds only such "
+                           "candidates" if okstep else "the table of admissible candidates is not recognised (see the failure guard)")
+        out["single"] = True
+        return out
+    # ---------------- form B: one candidate selected, then `if quotient > bound: raise`
+    if isinstance(par, ast.If) and par in fn.body and par.body and par.body[0] is rs and not par.orelse:
+        out["node"] = par
+        f = _cmp(par.test, {r2})
+        k0 = fn.body.index(par)
+        qdefs = [st for st in fn.body[:k0] if r2 in _own_stores(st)]
+        loops = [st for st in fn.body if isinstance(st, (ast.For, ast.While))]
+        allq = [n for n in ast.walk(fn) if isinstance(n, ast.Name) and isinstance(n.ctx, ast.Store) and n.id == r2]
+        if not (f and f[1] == "gt" and f[2] == P2) or len(qdefs) != 1 or len(allq) != 1 or loops:
+            out["guard"] = (None, f"`if {src(par.test)[:60]}: raise` is not a test of the single top-level value of `{r2}` against `{P2}` in a "
+                                  "function without loops: " + und)
+            return out
+        q = qdefs[0]
+        e = q.value if isinstance(q, ast.Assign) else None
+        if not (isinstance(e, ast.BinOp) and isinstance(e.left, ast.Name) and e.left.id == M and isinstance(e.right, ast.Name) and e.right.id == r1):
+            out["guard"] = out["fact"] = (None, f"`{src(q)[:80]}` is not the quotient `{M} // {r1}`")
+            return out
+        srcs = _elements(fn, ast.Name(id=r1, ctx=ast.Load()), env, M)
+        stores1 = [n for n in ast.walk(fn) if isinstance(n, ast.Name) and isinstance(n.ctx, ast.Store) and n.id == r1 and _stmt_of(n) is not None
+                   and _order(fn, q, _stmt_of(n)) != "after"]
+        if not srcs or stores1:
+            out["guard"] = out["fact"] = (None, f"the first extent `{r1}` is not followed back to positions of a table of divisors" +
+                                          (f" (`{r1}` is stored again after the quotient is taken)" if stores1 else ""))
+            return out
+        tables = {id(c_): c_ for c_, _i in srcs}
+        posn = sorted({i for _c, i in srcs})
+        D = next(iter(tables.values()))
+        tv, twhy = table_verdict(D) if len(tables) == 1 else (None, "the first extent is taken from several tables")
+        if isinstance(e.op, ast.Div):
+            out["fact"] = (False, f"`{src(q)}` is a true division: the second extent becomes a float, which is no valid number of processes")
+        elif not isinstance(e.op, ast.FloorDiv):
+            out["fact"] = (None, f"`{src(q)}` is not the quotient `{M} // {r1}`")
+        elif len(tables) == 1 and D.div:
+            out["fact"] = (True, f"the second extent is the exact quotient `{M} // {r1}` by an element of the table of divisors ({tabs}): the grid "
+                                 "multiplies to the process count")
+        else:
+            out["fact"] = (None, f"not known that every value `{r1}` can take divides `{M}`")
+        if f[3] != 0:
+            out["guard"] = (False, f"the error is raised when `{r2} > {_bound_text(P2, f[3])}` instead of `{r2} > {P2}`: " +
+                            ("a second extent beyond its bound passes (a process gets no point)" if f[3] > 0 else
+                             "a second extent equal to its bound is refused although the grid is valid"))
+        elif tv is not True:
+            out["guard"] = (tv, twhy)
+        elif all(_is_last(c_, i) for c_, i in srcs):
+            out["guard"] = (True, f"`{r1}` is the largest divisor of `{M}` within {T} (last element of the increasing table), whose quotient is the "
+                                  f"smallest possible second extent: if it exceeds `{P2}` no divisor within the bound fits")
+        elif [ch for ch in _neighbour_choices(fn, env, M) if ch[1] is D and ch[2] in posn and ch[3] in posn
+              and not any(isinstance(n, ast.Name) and n.id == P2 for n in ast.walk(ch[0]))]:
+            test, _d, small, large = [ch for ch in _neighbour_choices(fn, env, M) if ch[1] is D and ch[2] in posn and ch[3] in posn
+                                      and not any(isinstance(n, ast.Name) and n.id == P2 for n in ast.walk(ch[0]))][0]
+            out["guard"] = (False, f"the error is raised when the quotient of ONE pre-selected divisor exceeds `{P2}` (`if {src(par.test)}: raise`), and "
+                                   f"no loop or fallback tries another one. `{r1}` is an element of the table {tabs}; between the neighbouring positions "
+                                   f"[{small}] and [{large}] the choice is made by `{src(test)[:80]}` (line {test.lineno}), which does not test the quotient "
+                                   f"against `{P2}`: when the smaller divisor [{small}] is preferred and its (larger) quotient exceeds `{P2}`, the larger "
+                                   f"divisor [{large}] and those after it, whose quotients are smaller, are never tried, and the error is raised although a "
+                                   "valid grid can exist")
+        else:
+            out["guard"] = (None, f"`{r1}` is the element at position {posn} of the table {tabs}: cannot decide that, when its quotient exceeds `{P2}`, "
+                                  "no other divisor fits")
+        okstep = tv is True and f[3] == 0 and isinstance(e.op, ast.FloorDiv)
+        out["step"] = (True if okstep else None,
+                       f"no refinement loop: the pair returned is an element of the table bounded by {T} and its quotient, which passed `{r2} <= {P2}`"
+                       if okstep else "no refinement loop, and the single candidate is not known to respect both bounds")
+        out["single"] = True
+        return out
+    out["guard"] = (None, "the `raise` is neither the `else` branch of a top-level `for` over the candidates nor a top-level `if ...: raise`: " + und)
     return out
 
 
@@ -952,7 +1752,15 @@ def search_rules(chk, fn, nf_tree):
                              f"divisor bounded by `{P1}` (direction 0): the pair is returned in the wrong order, each extent is laid on the "
                              "direction whose bound it was not checked against")
                 first, (r1, r2) = swapped, (r2, r1)
-        second = _second_loop(fn, first["w1"], P1, P2, M, r1, r2)
+        if first["w1"] is None:
+            # no stepping loop: the search may be written over a table of candidate divisors
+            first = _table_search(fn, P1, P2, M, r1, r2)
+            if first.get("single"):
+                second = {"step": first["step"], "w2": None, "cand": None, "mono": False}
+            else:
+                second = _second_loop(fn, first["w1"], P1, P2, M, r1, r2, ctx=first.get("ctx") or {}, env=first.get("env") or {})
+        else:
+            second = _second_loop(fn, first["w1"], P1, P2, M, r1, r2)
     chk.pat("N2-factorisation", rets[0] if rets else fn, "return nprocs1, nprocs2", bool(pair) and not order_bad,
             "the pair is returned in (direction 0, direction 1) order", order_bad, nontrivial=False, **kw)
     und = "the function does not end in `return <first extent>, <second extent>` of two local names (or has not three parameters)"
@@ -968,7 +1776,7 @@ def search_rules(chk, fn, nf_tree):
     if g_ok is None and closed and first and first["scan"] is not None:
         g_ok, g_why = False, ("process_grid.py raises no error at all (no raise, assert, or call of foreign code): when no divisor within the bound exists the scan result is returned "
                               "as if it were a valid grid")
-    node = (first["scan"]["loop"] if first and first["scan"] else None) or w1 or fn
+    node = (first["scan"]["loop"] if first and first["scan"] else None) or (first.get("node") if first else None) or w1 or fn
     chk.ob("N2-failure-guard", node, "raise exactly when no divisor <= bound exists", g_ok, g_why, **kw)
     chk.ob("N2-factorisation", w1 or fn, "nprocs2 = mpi_size // nprocs1 for a divisor nprocs1", f_ok, f_why, **kw)
     chk.ob("N2-improvement-step", w2 or fn, "candidate accepted only within both bounds, as a pair", s_ok, s_why, **kw)
@@ -1004,6 +1812,28 @@ def search_rules(chk, fn, nf_tree):
                    f"loop-carried values {sorted(carried)}: the same iteration repeats forever, the search does not terminate", **kw)
         chk.ob("N3-no-stuck-iteration", lp, f"while {src(lp.test)[:60]}", True, f"{npaths} iteration paths to the back edge examined; "
                f"loop-carried values {sorted(carried)}", nontrivial=False, **kw)
+    # a `for` loop ends when its sequence does: the sequence must be a finite one that the body does not extend
+    loops = [n for n in ast.walk(fn) if isinstance(n, (ast.While, ast.For))]
+    for lp in [n for n in loops if isinstance(n, ast.For)]:
+        it = lp.iter
+        while isinstance(it, ast.Call) and isinstance(it.func, ast.Name) and it.func.id in ("enumerate", "reversed", "sorted", "list", "tuple") and it.args:
+            it = it.args[0]
+        root = _root_name(it) if isinstance(it, (ast.Name, ast.Attribute)) else None
+        grown = [n for n in ast.walk(lp) if isinstance(n, ast.Call) and isinstance(n.func, ast.Attribute)
+                 and n.func.attr in ("append", "extend", "insert") and _root_name(n.func.value) == root] if root else []
+        finite = isinstance(it, (ast.Name, ast.Tuple, ast.List, ast.ListComp)) or (isinstance(it, ast.Subscript) and isinstance(it.slice, ast.Slice)) \
+            or (isinstance(it, ast.Call) and src(it.func) in ("range", "zip", "np.arange", "numpy.arange") and not
+                any(isinstance(a, ast.Call) and src(a.func).split(".")[-1] in ("count", "cycle", "repeat") for a in it.args))
+        if grown:
+            chk.ob("N3-no-stuck-iteration", grown[0], f"for {src(lp.target)} in {src(lp.iter)[:60]}", None,
+                   f"`{src(grown[0])[:60]}` extends the sequence the loop runs over: cannot decide that the loop ends", **kw)
+        else:
+            chk.ob("N3-no-stuck-iteration", lp, f"for {src(lp.target)} in {src(lp.iter)[:60]}", True if finite else None,
+                   "the loop runs once over a finite sequence (a list, slice, range or table built before it) that its body does not extend"
+                   if finite else f"`{src(lp.iter)[:60]}` is not recognised as a finite sequence", nontrivial=False, **kw)
+    if not loops:
+        chk.ob("N3-no-stuck-iteration", fn, "no loop in the search", True,
+               f"{fn.name} contains no `while` or `for` statement: every statement is executed at most once", nontrivial=False, **kw)
 
 
 def run(chk):
@@ -1014,7 +1844,11 @@ def run(chk):
         "divisor scan is the negation of the scan's bound condition; the second extent is the exact quotient by a divisor; an "
         "improved candidate is accepted only where both bounds are known to hold, both extents together; no iteration path of a "
         "search loop reaches the back edge with the loop-carried state unchanged (a necessary condition of termination); no call "
-        "changes a memoised or module-level table in place. The rules work on a local normal form (tuple assignments split, loop "
+        "changes a memoised or module-level table in place. The grid sizes handed to the search and the ones the layouts' grids "
+        "are computed from are reads of the same state of the constants object. A search written over a table of candidate "
+        "divisors (list comprehension, masked arange) is decided by the contents of the table (range, divisibility and "
+        "admissibility filters, order) and the place of the raise (else of the walk, empty table, largest candidate). "
+        "The rules work on a local normal form (tuple assignments split, loop "
         "invariants written back, comparisons as `v <= B + k`). Termination in general, optimality and 'raises exactly when none "
         "exists' over the whole input space quantify over divisor arithmetic and are not decided.")
     chk.in_file(U.PROCGRID)
@@ -1023,8 +1857,8 @@ def run(chk):
     nf_tree, nf = _normal_form(mod.tree, (GRID, FROM_MAX))
     # the purity rule needs no recognition of the search: it runs first, so its verdict stands whatever the other rules can decide
     pure_search(chk, mod.tree, mod.func(FROM_MAX))
-    bounds_vs_layouts(chk, nf)
-    call_sites(chk)
+    layout_params = bounds_vs_layouts(chk, nf, nf_tree) or set()
+    call_sites(chk, layout_params)
     search_rules(chk, nf[FROM_MAX], nf_tree)
     chk.floor("N1-", 4)
     chk.floor("N2-", 4)
